@@ -293,12 +293,16 @@ impl Peer {
             return Err(Error::from(ErrorKind::InvalidInput));
         }
 
-        if self.public_key.is_some() {
-            assert_eq!(
-                response.public_key,
-                self.public_key.unwrap(),
-                "This peer instance is to handle a peer with a different public key"
+        if self.public_key.is_some() && response.public_key != self.public_key.unwrap() {
+            warn!(
+                "peer : {:?} is already known under the key : {:?} but sent a handshake response for the key : {:?}",
+                self.index,
+                self.public_key.unwrap().to_base58(),
+                response.public_key.to_base58()
             );
+            self.mark_as_disconnected(current_time);
+            io_handler.disconnect_from_peer(self.index).await?;
+            return Err(Error::from(ErrorKind::InvalidInput));
         }
 
         self.block_fetch_url = response.block_fetch_url;
